@@ -428,11 +428,14 @@ def collect(rep, pid, tier, replay_file=None):
                 nontrivial.add(ob.get("text_sha"))
                 cls = "<<" + ", ".join('[name |-> %s, uses |-> %s]' % (codec.tla_str(c["name"]), strseq(c["uses"]))
                                        for c in ob["classes"]) + ">>"
+                # the number of distinct object schemas of the DOCUMENT (the specification's graph:
+                # every object-shaped node, reachable or only listed under definitions); -1 = not known
+                nobj = sum(1 for n in st["nodes"] if n["shape"] in ("obj", "objT")) if st.get("nodes") else -1
                 add(si, '[id |-> @ID@, p |-> "C02", doc |-> %s, executes |-> %s, imports |-> %s, classes |-> %s, '
-                        'parsed |-> %s, eqs |-> %s, kinds |-> %s, dkinds |-> %s]'
+                        'parsed |-> %s, eqs |-> %s, kinds |-> %s, dkinds |-> %s, nobj |-> %d]'
                     % (tlajson_to_tla(st["doc"]), B(ob["executes"]), strseq(ob["imports"]), cls,
                        strseq(ob["parsed"]), "<<" + ", ".join(B(x) for x in ob["eqs"]) + ">>",
-                       strseq(ob["kinds"]), strseq(ob["dkinds"])))
+                       strseq(ob["kinds"]), strseq(ob["dkinds"]), nobj))
             elif pid == "C07" and ob["kind"] == "ok" and "root_elem" in ob:
                 nontrivial.add(si)
                 add(si, '[id |-> @ID@, p |-> "C07r", doc |-> %s, elem |-> %s]'
